@@ -87,7 +87,10 @@ def build_table(rows, *, label_enc="1/-1", extra_levels=(), nfeat=2, key_cols=("
     for j in range(nfeat):
         if int_feats and j >= 1:
             # whole-number features stored as integers (a matched-ion count; int64 in a text table and in Parquet)
-            d["f%d" % j] = np.asarray([int(round(float(r.get("feats", [0.0] * nfeat)[j]))) for r in rows], dtype=np.int64)
+            # int_feats == "big": the same whole numbers shifted by 2**40 (an intensity-like column): distinct int64 values that are
+            # no longer distinct in single precision -- the shift leaves every ranking unchanged
+            off = 2 ** 40 if int_feats == "big" else 0
+            d["f%d" % j] = np.asarray([off + int(round(float(r.get("feats", [0.0] * nfeat)[j]))) for r in rows], dtype=np.int64)
         else:
             d["f%d" % j] = [float(r.get("feats", [0.0] * nfeat)[j]) for r in rows]
     d["Peptide"] = ["K.PEP%dK.A" % r["pep"] for r in rows]
